@@ -189,8 +189,59 @@ Definition check_step (c : cfgT) (pre : obs) (o : op) (ok_o : bool) (msgs_o : li
 
 (** The same comparison for a transaction during which a hostile token re-enters the marketplace
     with the program [prog] (model/Reentry.v). *)
-Definition check_rstep (c : cfgT) (pre : obs) (o : op) (prog : list op) (ok_o : bool) (msgs_o : list out_msg) (post : obs) : N :=
-  check_step_with (fun w => rstep w o prog) c pre ok_o msgs_o post.
+(** Which of the re-entrant calls went through ([None]: the program did not run, or the
+    transaction failed) — recomputed along the same path as [rstep]. *)
+Fixpoint run_outcomes (w : world) (ops : list op) : list bool :=
+  match ops with
+  | [] => []
+  | o :: r => let '(w', out) := step w o in ok out :: run_outcomes w' r
+  end.
+
+Fixpoint rdispatch_nested (w : world) (i : nat) (fail : option nat) (prog : list op) (ms : list out_msg)
+  : option (list bool) :=
+  match ms with
+  | [] => None
+  | m :: r =>
+      if (match fail with Some j => Nat.eqb i j | None => false end) then None
+      else match dispatch1 w m with
+           | Ok w1 =>
+               if to_hostile w m
+               then (match prog with [] => None | _ => Some (run_outcomes w1 prog) end)
+               else rdispatch_nested w1 (S i) fail prog r
+           | Err => None
+           end
+  end.
+
+Definition rstep_nested (w : world) (o : op) (prog : list op) : option (list bool) :=
+  if negb (ok (snd (rstep w o prog))) then None else
+  let go (w1 : world) (sender : addr) (fs : list coin) (m : exec_msg) (fail : option nat) :=
+      match execute (oracle_of w1) (env_of w1) sender fs m (market w1) with
+      | Ok (s', out) => rdispatch_nested (set_market w1 s') 0 fail prog out
+      | Err => None
+      end in
+  match o with
+  | Exec sender fs m fail =>
+      match pay_funds (bank w) sender (self_addr w) fs with Ok b => go (set_bank w b) sender fs m fail | Err => None end
+  | Cw20Send user t amt inner fail =>
+      match cw20_move (cw20bal w) t user (self_addr w) amt with
+      | Ok c => go (set_cw20 w c) t [] (Receive user amt inner) fail | Err => None end
+  | NftSend user c k inner fail =>
+      match nft_move (nft_owner w) c k user (self_addr w) with
+      | Ok n => go (set_nft w n) c [] (ReceiveNft user k inner) fail | Err => None end
+  | _ => None
+  end.
+
+Definition nested_eqb (a b : option (list bool)) : bool :=
+  match a, b with
+  | None, None => true
+  | Some x, Some y => list_eqb Bool.eqb x y
+  | _, _ => false
+  end.
+
+Definition check_rstep (c : cfgT) (pre : obs) (o : op) (prog : list op) (ok_o : bool) (msgs_o : list out_msg)
+           (nested_o : option (list bool)) (post : obs) : N :=
+  check_step_with (fun w => rstep w o prog) c pre ok_o msgs_o post
+  + bit 21 (negb (nested_eqb (rstep_nested (abs c pre) o prog) nested_o)).
 
 (** ** Queries *)
 Definition res_eqb {A} (eqb : A -> A -> bool) (a b : result A) : bool :=
